@@ -40,7 +40,16 @@ import (
 //   putx <i> <imports|-> <errs|->    write an INVALID file f<i>.proto (error tokens: see incrqErrText)
 //   diag <i,j,..> <reps>             (engine incr_diag, C36) reps compilations on the long-lived executor + fresh
 //                                    executors at parallelism 1,2,4,8: all reports must be the same ordered lists
+//   putd <i> <imports|-> <pkg> <decls> write a proto2 file f<i>.proto in package <pkg> built from declarations (see
+//                                    incrqDeclText): used for cross-file duplicate symbols and extension numbers
 //   shape                            inspect queries/*.go: who opens files, which queries each Execute resolves
+//
+// diag additionally FORCES lowering orders: on a fresh executor and a fresh ir.Session (parallelism 1)
+// queries.IR is run for the workspace files and their transitive imports one by one in a given
+// permutation (identity, reverse, rotation, seeded shuffle; every permutation of up to 3 files) before
+// the Link/FDS queries; the reports are compared with run 0 like those of the parallelism runs. The
+// session-wide intern table hands out IDs first come first served, so the lowering order is what a
+// scheduler decides under parallelism > 1.
 //
 // File text (all in package p):
 //   message <M|N><i> { int32 x = 1; <variant part> }
@@ -172,7 +181,13 @@ func (o incrqOutcome) diff(p incrqOutcome) string {
 
 // incrqDiag is one reported diagnostic: key = the fields Report.Canonicalize sorts by,
 // full = (level, tag, message, file, primary span, notes, help).
-type incrqDiag struct{ key, full string }
+type incrqDiag struct {
+	key, full string
+	// for classifying differences: level, message and the paths of all snippets
+	level int
+	msg   string
+	files []string
+}
 
 func incrqDiagList(rep *report.Report) []incrqDiag {
 	if rep == nil {
@@ -185,7 +200,19 @@ func incrqDiagList(rep *report.Report) []incrqDiag {
 		pr := d.Primary()
 		key := fmt.Sprintf("%s|%d|%d|%d|%s|%s", pr.Path(), v.SortOrder, pr.Start, pr.End, v.Tag, v.Message)
 		full := fmt.Sprintf("L%d|%s|%s|in=%s|%s:%d-%d|notes=%q|help=%q", int(v.Level), v.Tag, v.Message, d.File(), pr.Path(), pr.Start, pr.End, v.Notes, v.Help)
-		out = append(out, incrqDiag{key: Canon(key), full: Canon(full)})
+		// the other snippets (e.g. the "previously used here" side of a duplicate) in their order
+		var files []string
+		for _, sn := range v.Snippets {
+			path := ""
+			if sn.File != nil {
+				path = sn.File.Path()
+			}
+			files = append(files, path)
+			if !sn.Primary {
+				full += fmt.Sprintf("|also=%s:%d-%d:%q", path, sn.Start, sn.End, sn.Message)
+			}
+		}
+		out = append(out, incrqDiag{key: Canon(key), full: Canon(full), level: int(v.Level), msg: v.Message, files: files})
 	}
 	return out
 }
@@ -304,6 +331,214 @@ func incrqErrText(i int, imports []int, errs string) string {
 		b.WriteString("message Dup {}\n")
 	}
 	return b.String()
+}
+
+var (
+	incrqIdentRe = regexp.MustCompile(`^[A-Za-z][A-Za-z0-9_]*$`)
+	incrqPkgRe   = regexp.MustCompile(`^[a-z][a-z0-9_]*(\.[a-z][a-z0-9_]*)*$`)
+	incrqRefRe   = regexp.MustCompile(`^[A-Za-z][A-Za-z0-9_]*(\.[A-Za-z][A-Za-z0-9_]*)*$`)
+	incrqImpRe   = regexp.MustCompile(`import "f([0-9]+)\.proto";`)
+)
+
+// incrqDeclText builds a proto2 file from `;`-separated declarations (ok=false: malformed):
+//
+//	M<Name>[:<m>,<m>..]   message; a member starting with an upper-case letter is a nested empty message,
+//	                      any other member `optional int32 <m> = <k>;` (k = 1, 2, ..)
+//	X<Name>               message <Name> { extensions 100 to 200; }
+//	E<Ref>:<field>=<num>  extend <Ref> { optional int32 <field> = <num>; }
+//
+// pkg "-" = no package statement.
+func incrqDeclText(imports []int, pkg, decls string) (string, bool) {
+	var b strings.Builder
+	b.WriteString("syntax = \"proto2\";\n")
+	if pkg != "-" {
+		if !incrqPkgRe.MatchString(pkg) {
+			return "", false
+		}
+		fmt.Fprintf(&b, "package %s;\n", pkg)
+	}
+	for _, j := range imports {
+		fmt.Fprintf(&b, "import %q;\n", incrqPath(j))
+	}
+	for _, d := range strings.Split(decls, ";") {
+		if len(d) < 2 {
+			return "", false
+		}
+		head, rest, has := strings.Cut(d[1:], ":")
+		switch d[0] {
+		case 'M':
+			if !incrqIdentRe.MatchString(head) {
+				return "", false
+			}
+			fmt.Fprintf(&b, "message %s {\n", head)
+			if has {
+				k := 1
+				for _, m := range strings.Split(rest, ",") {
+					if !incrqIdentRe.MatchString(m) {
+						return "", false
+					}
+					if m[0] >= 'A' && m[0] <= 'Z' {
+						fmt.Fprintf(&b, "  message %s {}\n", m)
+					} else {
+						fmt.Fprintf(&b, "  optional int32 %s = %d;\n", m, k)
+						k++
+					}
+				}
+			}
+			b.WriteString("}\n")
+		case 'X':
+			if has || !incrqIdentRe.MatchString(head) {
+				return "", false
+			}
+			fmt.Fprintf(&b, "message %s {\n  extensions 100 to 200;\n}\n", head)
+		case 'E':
+			f, num, ok := strings.Cut(rest, "=")
+			n, err := strconv.Atoi(num)
+			if strings.Trim(num, "0123456789") != "" {
+				return "", false
+			}
+			if !has || !ok || err != nil || n < 1 || n > 536870911 || !incrqRefRe.MatchString(head) || !incrqIdentRe.MatchString(f) {
+				return "", false
+			}
+			fmt.Fprintf(&b, "extend %s {\n  optional int32 %s = %d;\n}\n", head, f, n)
+		default:
+			return "", false
+		}
+	}
+	return b.String(), true
+}
+
+// warmSet returns the workspace paths followed by the existing files they import, transitively
+// (in order of discovery): the files whose lowering a compilation of the workspace performs.
+func (e *incrqEngine) warmSet(paths []string) []string {
+	e.mem.mu.Lock()
+	defer e.mem.mu.Unlock()
+	seen := map[string]bool{}
+	var out []string
+	queue := append([]string{}, paths...)
+	for len(queue) > 0 {
+		p := queue[0]
+		queue = queue[1:]
+		if seen[p] {
+			continue
+		}
+		seen[p] = true
+		out = append(out, p)
+		for _, m := range incrqImpRe.FindAllStringSubmatch(e.mem.files[p], -1) {
+			q := "f" + m[1] + ".proto"
+			if _, ok := e.mem.files[q]; ok {
+				queue = append(queue, q)
+			}
+		}
+	}
+	return out
+}
+
+// incrqOrders returns the lowering orders to force for the given files: every permutation of up to
+// 3 files, else identity, reverse, rotation by one and a shuffle seeded by the file names and seed.
+func incrqOrders(files []string, seed string) [][]string {
+	n := len(files)
+	var out [][]string
+	seenOrd := map[string]bool{}
+	add := func(o []string) {
+		k := strings.Join(o, ",")
+		if !seenOrd[k] {
+			seenOrd[k] = true
+			out = append(out, o)
+		}
+	}
+	if n <= 3 {
+		var rec func(pre, rest []string)
+		rec = func(pre, rest []string) {
+			if len(rest) == 0 {
+				add(append([]string{}, pre...))
+				return
+			}
+			for i := range rest {
+				r2 := append(append([]string{}, rest[:i]...), rest[i+1:]...)
+				rec(append(pre, rest[i]), r2)
+			}
+		}
+		rec(nil, files)
+		return out
+	}
+	add(append([]string{}, files...))
+	rev := make([]string, n)
+	for i, f := range files {
+		rev[n-1-i] = f
+	}
+	add(rev)
+	add(append(append([]string{}, files[1:]...), files[0]))
+	// FNV-1a seeded Fisher-Yates
+	h := uint64(14695981039346656037)
+	for _, c := range []byte(seed + "|" + strings.Join(files, ",")) {
+		h = (h ^ uint64(c)) * 1099511628211
+	}
+	sh := append([]string{}, files...)
+	for i := n - 1; i > 0; i-- {
+		h = h*6364136223846793005 + 1442695040888963407
+		j := int((h >> 33) % uint64(i+1))
+		sh[i], sh[j] = sh[j], sh[i]
+	}
+	add(sh)
+	return out
+}
+
+// incrqCause names a recognised cause of a difference between two diagnostic lists ("" = none).
+//
+// duplicate-symbol-scan-stops-early: every diagnostic that only one side has is a Link-stage
+// "`X` declared multiple times" error, and the side that lacks it reports another such error
+// mentioning one of the same files (ir.DedupExportedSymbols leaves a file's symbol loop at the
+// first child of an already duplicated parent, so the rest of that file's symbols - in intern-ID,
+// i.e. lowering, order - is not looked at).
+func incrqCause(a, b []incrqDiag) string {
+	count := func(l []incrqDiag) map[string]int {
+		m := map[string]int{}
+		for _, d := range l {
+			m[d.full]++
+		}
+		return m
+	}
+	ca, cb := count(a), count(b)
+	isDup := func(d incrqDiag) bool {
+		return d.level == int(report.Error) && strings.HasSuffix(d.msg, "` declared multiple times") && strings.HasPrefix(d.msg, "`")
+	}
+	oneSided := func(l []incrqDiag, other map[string]int, otherList []incrqDiag) (int, bool) {
+		n := 0
+		for _, d := range l {
+			if other[d.full] > 0 {
+				other[d.full]--
+				continue
+			}
+			n++
+			if !isDup(d) {
+				return n, false
+			}
+			found := false
+			for _, o := range otherList {
+				if !isDup(o) || o.full == d.full {
+					continue
+				}
+				for _, f := range o.files {
+					for _, g := range d.files {
+						if f != "" && f == g {
+							found = true
+						}
+					}
+				}
+			}
+			if !found {
+				return n, false
+			}
+		}
+		return n, true
+	}
+	na, oka := oneSided(a, cb, b)
+	nb, okb := oneSided(b, ca, a)
+	if oka && okb && na+nb > 0 {
+		return "duplicate-symbol-scan-stops-early"
+	}
+	return ""
 }
 
 func incrqCompile(ex *incremental.Executor, op source.Opener, sess *ir.Session, ws source.Workspace) (out incrqOutcome) {
@@ -613,6 +848,42 @@ func (e *incrqEngine) compileWatched(ex *incremental.Executor, sess *ir.Session,
 	}
 }
 
+// warmWatched lowers the given files one by one (one Run of queries.IR each) under the same soft
+// deadline as compileWatched. Errors and fatal results of the warm-up runs are not looked at: the
+// compilation that follows reports them.
+func (e *incrqEngine) warmWatched(ex *incremental.Executor, sess *ir.Session, order []string) bool {
+	ch := make(chan struct{}, 1)
+	go func() {
+		defer func() {
+			_ = recover() // a panic shows again (and is reported) in the compilation that follows
+			ch <- struct{}{}
+		}()
+		for _, p := range order {
+			_, _, _ = incremental.Run(context.Background(), ex, queries.IR{Opener: e.op, Session: sess, Path: p})
+		}
+	}()
+	timer := time.NewTimer(20 * time.Second)
+	defer timer.Stop()
+	hardCap := time.Now().Add(4 * incrHardCap)
+	quiet := 0
+	for {
+		select {
+		case <-ch:
+			return true
+		case <-timer.C:
+			if incrAllParked() {
+				quiet++
+			} else {
+				quiet = 0
+			}
+			if quiet >= incrQuietSamples || time.Now().After(hardCap) {
+				return false
+			}
+			timer.Reset(incrSampleEvery)
+		}
+	}
+}
+
 func (e *incrqEngine) Exec(op string) string {
 	w := strings.Fields(op)
 	if len(w) == 0 {
@@ -674,6 +945,29 @@ func (e *incrqEngine) Exec(op string) string {
 		e.mem.files[incrqPath(i)] = incrqErrText(i, imps, errs)
 		e.mem.mu.Unlock()
 		return "ok"
+	case "putd":
+		// putd <i> <imports|-> <pkg|-> <decls>: a proto2 file built from declarations (see incrqDeclText)
+		if len(w) != 5 {
+			return "bad-op"
+		}
+		i, err1 := strconv.Atoi(w[1])
+		imps, ok := incrInts(w[2])
+		if err1 != nil || !ok || i < 1 {
+			return "bad-op"
+		}
+		for _, j := range imps {
+			if j < 1 {
+				return "bad-op"
+			}
+		}
+		text, ok := incrqDeclText(imps, w[3], w[4])
+		if !ok {
+			return "bad-op"
+		}
+		e.mem.mu.Lock()
+		e.mem.files[incrqPath(i)] = text
+		e.mem.mu.Unlock()
+		return "ok"
 	case "diag":
 		// diag <i,j,..> <reps>: compile the workspace reps times on the long-lived executor (no
 		// eviction in between) and once each on brand-new executors with parallelism 1, 2, 4, 8;
@@ -700,27 +994,37 @@ func (e *incrqEngine) Exec(op string) string {
 		}
 		var base incrqOutcome
 		verdict := ""
+		// a genuine difference outranks a difference with a recognised cause, which outranks a
+		// reordering of key ties: the first verdict of the highest rank is reported
+		rank := 0
+		set := func(r int, v string) {
+			if r > rank {
+				rank, verdict = r, v
+			}
+		}
 		cmp := func(kind string, o incrqOutcome) {
-			if verdict != "" {
+			if o.err != base.err {
+				set(3, fmt.Sprintf("differ:%s run-error [%s] vs [%s]", kind, base.err, o.err))
 				return
 			}
-			switch {
-			case o.err != base.err:
-				verdict = fmt.Sprintf("differ:%s run-error [%s] vs [%s]", kind, base.err, o.err)
-			case incrqDiagDiff(base.linkDiags, o.linkDiags) != "":
-				d := incrqDiagDiff(base.linkDiags, o.linkDiags)
-				if strings.HasPrefix(d, "tieorder") {
-					verdict = fmt.Sprintf("tieorder:%s link %s", kind, d)
-				} else {
-					verdict = fmt.Sprintf("differ:%s link %s", kind, d)
+			for _, side := range []struct {
+				name string
+				a, b []incrqDiag
+			}{{"link", base.linkDiags, o.linkDiags}, {"fds", base.fdsDiags, o.fdsDiags}} {
+				d := incrqDiagDiff(side.a, side.b)
+				switch {
+				case d == "":
+					continue
+				case strings.HasPrefix(d, "tieorder"):
+					set(1, fmt.Sprintf("tieorder:%s %s %s", kind, side.name, d))
+				default:
+					if c := incrqCause(side.a, side.b); c != "" {
+						set(2, fmt.Sprintf("differ:%s cause=%s %s %s", kind, c, side.name, d))
+					} else {
+						set(3, fmt.Sprintf("differ:%s cause=unknown %s %s", kind, side.name, d))
+					}
 				}
-			case incrqDiagDiff(base.fdsDiags, o.fdsDiags) != "":
-				d := incrqDiagDiff(base.fdsDiags, o.fdsDiags)
-				if strings.HasPrefix(d, "tieorder") {
-					verdict = fmt.Sprintf("tieorder:%s fds %s", kind, d)
-				} else {
-					verdict = fmt.Sprintf("differ:%s fds %s", kind, d)
-				}
+				return
 			}
 		}
 		for i := 0; i < reps; i++ {
@@ -741,8 +1045,23 @@ func (e *incrqEngine) Exec(op string) string {
 			}
 			cmp(fmt.Sprintf("parallelism run0 vs p=%d", p), o)
 		}
+		// forced lowering orders: IR queries one by one on a fresh executor and session, then Link/FDS
+		norders := 0
+		for _, ord := range incrqOrders(e.warmSet(paths), op) {
+			ex, sess := incremental.New(incremental.WithParallelism(1)), new(ir.Session)
+			label := strings.ReplaceAll(strings.ReplaceAll(strings.Join(ord, ","), ".proto", ""), "f", "")
+			if !e.warmWatched(ex, sess, ord) {
+				return "ran ~ hang lowering order " + label
+			}
+			o, ok := e.compileWatched(ex, sess, ws)
+			if !ok {
+				return "ran ~ hang lowering order " + label
+			}
+			norders++
+			cmp("lowering-order run0 vs order="+label, o)
+		}
 		if verdict == "" {
-			verdict = fmt.Sprintf("same n=%d+%d e=%d", len(base.linkDiags), len(base.fdsDiags), base.nerr)
+			verdict = fmt.Sprintf("same n=%d+%d e=%d orders=%d", len(base.linkDiags), len(base.fdsDiags), base.nerr, norders)
 		}
 		// the model does not predict diagnostics: everything after " ~ " is for the oracle only
 		return "ran ~ " + Canon(verdict)
@@ -928,7 +1247,196 @@ func (e *incrqEngine) genDiag(r *Rand, tier string) [][]string {
 		}
 		cases = append(cases, ops)
 	}
+	// after the older families: their cases stay the same for a given seed
+	cases = append(cases, e.genDiagOrders(r, tier)...)
 	return cases
+}
+
+// genDiagOrders: workspaces whose Link-stage diagnostics are computed from session-wide intern
+// IDs, i.e. from the order in which the files happened to be lowered: cross-file duplicate
+// symbols (with children, declared in different orders in the files) and extension numbers used
+// twice across files for extendees declared in unrelated files.
+func (e *incrqEngine) genDiagOrders(r *Rand, tier string) [][]string {
+	var cases [][]string
+	// directed: a duplicated message with a child followed / preceded by a second duplicated
+	// message (fully qualified names longer than 5 bytes are interned first come first served,
+	// shorter ones are inlined into the ID)
+	cases = append(cases,
+		[]string{"new 1", "putd 1 - longpkg MFoooooo:barbarbar;MZedzedzed", "putd 2 - longpkg MZedzedzed;MFoooooo:barbarbar", "diag 1,2 2", "diag 2,1 2"},
+		[]string{"new 2", "putd 1 - p MA:b;MZ", "putd 2 - p MZ;MA:b", "diag 1,2 2"},
+		[]string{"new 2", "putd 1 - - MA:b;MZ", "putd 2 - - MZ;MA:b", "diag 1,2 2"},
+		[]string{"new 4", "putd 1 - longpkg MAaaaaa:Inner,fieldone;MBbbbbb:fieldtwo;MCccccc", "putd 2 - longpkg MCccccc;MBbbbbb:fieldtwo;MAaaaaa:Inner,fieldone", "putd 3 - longpkg MBbbbbb;MCccccc:x", "diag 1,2,3 2", "diag 3,1 2"},
+		// the same with an import between the files: the duplicate is found while lowering the importer
+		[]string{"new 2", "putd 1 - longpkg MFoooooo:barbarbar;MZedzedzed", "putd 2 1 longpkg MZedzedzed;MFoooooo:barbarbar", "diag 1,2 2", "diag 2 2"},
+		// extension numbers used twice across files; extendees declared in unrelated files
+		[]string{"new 1", "putd 1 - longpkg XExtendeeOne", "putd 2 - longpkg XExtendeeTwo",
+			"putd 3 1,2 longpkg EExtendeeTwo:e0=107;EExtendeeTwo:e1=101;EExtendeeOne:e2=101;EExtendeeOne:e3=100;EExtendeeOne:e4=106;EExtendeeTwo:e5=102;EExtendeeTwo:e6=100;EExtendeeOne:e7=103;EExtendeeTwo:e8=105;EExtendeeOne:e9=107",
+			"putd 4 1,2 longpkg EExtendeeTwo:g0=100;EExtendeeOne:g1=107;EExtendeeTwo:g3=107;EExtendeeTwo:g4=104;EExtendeeTwo:g6=102",
+			"diag 1,2,3,4 2", "diag 3,4 2", "diag 4,3,2,1 2"},
+	)
+	nd, nx := 10, 10
+	if tier == "thorough" {
+		nd, nx = 300, 300
+	}
+	long := []string{"Alphaaa", "Betaaaa", "Gammaaa", "Deltaaa", "Epsilon"}
+	short := []string{"A", "B", "C", "D", "E"}
+	lmem := []string{"fieldone", "fieldtwo", "Innerrr", "fieldthree"}
+	smem := []string{"a", "b", "I", "c"}
+	for c := 0; c < nd; c++ {
+		// 2-3 files of one package declare subsets of a pool of messages, each file in its own order
+		pkg := Pick(r, []string{"longpkg", "p", "-", "longpkg.sub"})
+		names, mems := long, lmem
+		if r.Chance(1, 3) {
+			names, mems = short, smem
+		} else if r.Chance(1, 4) {
+			names = []string{"Alphaaa", "B", "Gammaaa", "D", "Epsilon"}
+		}
+		pool := 2 + r.Intn(4)
+		// the members of a message are the same in every file that declares it (most of the time)
+		body := make([]string, pool)
+		for k := range body {
+			var ms []string
+			for _, m := range mems {
+				if r.Chance(1, 3) {
+					ms = append(ms, m)
+				}
+			}
+			body[k] = strings.Join(ms, ",")
+		}
+		nf := 2 + r.Intn(2)
+		ops := []string{fmt.Sprintf("new %d", Pick(r, []int{1, 2, 4, 8}))}
+		all := make([]int, nf)
+		for i := 1; i <= nf; i++ {
+			all[i-1] = i
+			var decls []string
+			for _, k := range incrShuffle(r, incrRange(pool)) {
+				if !r.Chance(3, 4) {
+					continue
+				}
+				d := "M" + names[k]
+				b := body[k]
+				if r.Chance(1, 8) {
+					b = mems[r.Intn(len(mems))]
+				}
+				if b != "" {
+					d += ":" + b
+				}
+				decls = append(decls, d)
+			}
+			if len(decls) == 0 {
+				decls = []string{fmt.Sprintf("MOnly%d", i)}
+			}
+			var imps []int
+			if i > 1 && r.Chance(1, 5) {
+				imps = append(imps, 1+r.Intn(i-1))
+			}
+			ops = append(ops, fmt.Sprintf("putd %d %s %s %s", i, incrJoin(imps), pkg, strings.Join(decls, ";")))
+		}
+		ops = append(ops, fmt.Sprintf("diag %s 2", incrJoin(all)))
+		if r.Chance(1, 2) {
+			ops = append(ops, fmt.Sprintf("diag %s 2", incrJoin(incrShuffle(r, all))))
+		}
+		cases = append(cases, ops)
+	}
+	for c := 0; c < nx; c++ {
+		// k extendees in unrelated files, 2-3 files extending them with numbers from a small range
+		k := 1 + r.Intn(3)
+		if r.Chance(2, 3) && k == 1 {
+			k = 2
+		}
+		xnames := []string{"ExtendeeOne", "ExtendeeTwo", "ExtendeeThree"}
+		pkg := "longpkg"
+		if r.Chance(1, 5) {
+			xnames, pkg = []string{"X", "Y", "Z"}, "p"
+		}
+		ops := []string{fmt.Sprintf("new %d", Pick(r, []int{1, 2, 4, 8}))}
+		var ms []int
+		if r.Chance(1, 6) {
+			// all extendees in one file
+			var ds []string
+			for j := 0; j < k; j++ {
+				ds = append(ds, "X"+xnames[j])
+			}
+			ops = append(ops, fmt.Sprintf("putd 1 - %s %s", pkg, strings.Join(ds, ";")))
+			ms = []int{1}
+		} else {
+			for j := 0; j < k; j++ {
+				ops = append(ops, fmt.Sprintf("putd %d - %s X%s", j+1, pkg, xnames[j]))
+				ms = append(ms, j+1)
+			}
+		}
+		nxf := 2 + r.Intn(2)
+		total := Pick(r, []int{6, 10, 12, 13, 14, 16, 20, 28})
+		per := make([][]string, nxf)
+		type use struct{ ext, num int }
+		used := map[use][]int{}
+		for n := 0; n < total; n++ {
+			f := r.Intn(nxf)
+			u := use{r.Intn(k), 100 + r.Intn(4+total/3)}
+			// a number is used at most once per file and extendee (a repeat inside one file is an
+			// IR-stage error of that file)
+			dup := false
+			for _, g := range used[u] {
+				if g == f {
+					dup = true
+				}
+			}
+			if dup {
+				continue
+			}
+			used[u] = append(used[u], f)
+			per[f] = append(per[f], fmt.Sprintf("E%s:e%d_%d=%d", xnames[u.ext], f, n, u.num))
+		}
+		// at least one collision across files
+		if len(per[0]) > 0 {
+			d := per[0][r.Intn(len(per[0]))]
+			head, num, _ := strings.Cut(d, "=")
+			ext, _, _ := strings.Cut(head, ":")
+			e0, _ := strconv.Atoi(num)
+			x := 0
+			for j, nme := range xnames {
+				if "E"+nme == ext {
+					x = j
+				}
+			}
+			clash := false
+			for _, g := range used[use{x, e0}] {
+				if g == 1 {
+					clash = true
+				}
+			}
+			if !clash {
+				per[1] = append(per[1], fmt.Sprintf("%s:clash=%d", ext, e0))
+			}
+		}
+		var xs []int
+		for f := 0; f < nxf; f++ {
+			if len(per[f]) == 0 {
+				per[f] = []string{fmt.Sprintf("MNone%d", f)}
+			}
+			i := len(ms) + f + 1
+			xs = append(xs, i)
+			ops = append(ops, fmt.Sprintf("putd %d %s %s %s", i, incrJoin(ms), pkg, strings.Join(per[f], ";")))
+		}
+		all := append(append([]int{}, ms...), xs...)
+		ops = append(ops, fmt.Sprintf("diag %s 2", incrJoin(all)))
+		switch r.Intn(3) {
+		case 0:
+			ops = append(ops, fmt.Sprintf("diag %s 2", incrJoin(xs))) // the extendees' files only as imports
+		case 1:
+			ops = append(ops, fmt.Sprintf("diag %s 2", incrJoin(incrShuffle(r, all))))
+		}
+		cases = append(cases, ops)
+	}
+	return cases
+}
+
+func incrRange(n int) []int {
+	out := make([]int, n)
+	for i := range out {
+		out[i] = i
+	}
+	return out
 }
 
 func incrShuffleBytes(r *Rand, b []byte) []byte {
